@@ -373,7 +373,9 @@ Definition apply_cmd (pr : peer_state) (c : cmd) : peer_state :=
       pr <| n_srv_transport := Some (p_tick pr) |> <| t_promo := true |>
   | CStartClientTo h flag =>
       let pr := pr <| n_cli_transport := Some (h, p_tick pr) |> in
-      let pr := pr <| n_status := if n_sticky_disconnect pr then RDisconnected else RConnecting |> in
+      (* a new RenetClient is inserted together with the transport (repair of S9): whatever happened to
+         the old one (disconnect(), a kick) is forgotten *)
+      let pr := pr <| n_sticky_disconnect := false |> <| n_status := RConnecting |> in
       if flag then pr <| t_promo := true |> else pr
   | CRemoveClientTransport => pr <| n_cli_transport := None |>
   | CRemoveServerTransport => pr <| n_srv_transport := None |>
